@@ -168,9 +168,16 @@ def build_gen(ctx, rng):
         if len(grp) != 1:
             ctx.problem("trace-shape", "c11 rodded %s" % tagname,
                         "duct cells no longer share one closed form: %s" % names)
-        if adiabatic:
-            # inner ducts of an adiabatic assembly must be the coupled form
+        if not adiabatic:
+            coupled_keys = set(grp)
+        else:
+            # the ducts inside the outermost one of an adiabatic assembly still exchange heat on both faces: they must
+            # have the coupled closed form (the one the coupled theorems are about), not the adiabatic one
             info["adiab_inner_cells"] = len(other)
+            inner = _canon(other)
+            wrong = [members[0][0] for key, members in inner.items() if key not in coupled_keys]
+            ctx.obligation("inner ducts of an adiabatic assembly have the coupled closed form (%d cells traced)" % len(other),
+                           not wrong, kind="trace-shape", detail="cells with another form, e.g. %s" % wrong[:3])
     # --- p_duct None (zero heating) must equal coupled form at p = 0: checked numerically below
     # --- unrodded
     for tagname, adiabatic in (("coupled", False), ("adiab", True)):
